@@ -163,7 +163,7 @@ func ParseAndRun(stdout, stderr io.Writer, stdin io.Reader, args []string) int {
 		return 0
 	case Clean:
 		if err := removeContents(inv.CacheDir); err != nil {
-			out.Println("Error:", err)
+			errlog.Println("Error:", err)
 			return 1
 		}
 		out.Println(inv.CacheDir, "cleaned")
